@@ -105,7 +105,7 @@ def cmd_confirm(mid, wt):
                 res['build_ok'] = rc == 0
             rc, out = sh(['bash', '-c', script], cwd=f'{d}/demo', timeout=1800)
             failed = bool(re.search(r'^(--- FAIL|FAIL\b|panic:)', out, re.M)) or 'VIOLATED' in out
-            passed = bool(re.search(r'^(ok\s|PASS\b)', out, re.M)) and not failed
+            passed = (bool(re.search(r'^(ok\s|PASS\b)', out, re.M)) or (rc == 0 and 'holds' in out)) and not failed
             res[phase] = {'demo_failed': failed, 'demo_passed': passed, 'tail': out[-600:]}
         sh(['git', 'checkout', '--', '.'], cwd=wt)
         sh(['git', 'clean', '-fdq'], cwd=wt)
